@@ -477,6 +477,13 @@ class FnTranslator:
                     else:
                         raise Unsupported('argument type %s for %s of %s' % (t, pt, n))
                 args.append(v)
+            if getattr(info, 'uses_fuel', False):
+                # callee has a leading fuel argument: thread the caller's fuel (top level only,
+                # for-loop bodies have no fuel in scope)
+                if getattr(self, 'in_loop', 0):
+                    raise Unsupported('call of fuelled function %s inside a loop' % n)
+                self.uses_fuel = True
+                args = ['fuel'] + args
             callt = '(%s %s)' % (cname(n), ' '.join(args)) if args else cname(n)
             if info.pure:
                 return callt, info.ret
@@ -702,6 +709,7 @@ class FnTranslator:
     def loop_common(self, s, rest, sc, k, is_for):
         self.nloops += 1
         lname = '%s_loop%d' % (cname(self.name), self.nloops)
+        self.in_loop = getattr(self, 'in_loop', 0) + 1   # see call(): fuelled callees only at top level
         body = s.body
         if s.orelse:
             raise Unsupported('loop else')
@@ -713,6 +721,7 @@ class FnTranslator:
             itervar = s.target.id
             av = [v for v in av if v != itervar]
         sc = dict(sc)
+        newvars = set()   # unbound before the loop: the call site passes a dummy (body assigns before any read)
         # variables first assigned in the loop and used afterwards
         for v in av:
             if v not in sc:
@@ -730,6 +739,7 @@ class FnTranslator:
                 if not (always and first is not None):
                     raise Unsupported('variable %s first assigned inside a loop and used after it' % v)
                 sc[v] = '?'   # type discovered while translating the body
+                newvars.add(v)
         carried = [v for v in av if v in sc]
         has_ret = stmts_have(body, (ast.Return,), into_loops=True)
         rd = read_vars(body) + ([] if is_for else read_vars(s.test))
@@ -789,6 +799,7 @@ class FnTranslator:
             for gc, ge in reversed(cond_guards):
                 inner = ('guard', gc, ge, inner)
             term = ('fuelmatch', inner)
+        self.in_loop -= 1
         pure = is_for and loop_term_pure(term)
         params = ''
         if not is_for:
@@ -805,7 +816,8 @@ class FnTranslator:
         # call site
         args = (['fuel'] if not is_for else []) + [cname(v) for v in free] + \
                ([it] if is_for else []) + \
-               [cname(v) if sc[v] != '?' else default_of('int') for v in carried]
+               [cname(v) if (sc[v] != '?' and v not in newvars) else default_of(sc[v] if sc[v] != '?' else 'int')
+                for v in carried]
         # carried vars that were not defined before the loop get a default
         call_args = []
         for a, v in zip(args[len(args) - len(carried):], carried):
@@ -959,13 +971,13 @@ def source_hash(fn):
     return hashlib.sha256(ast.dump(fn, include_attributes=False).encode()).hexdigest()[:16]
 
 
-def translate_module(pyfile, entries, header_imports=()):
+def translate_module(pyfile, entries, header_imports=(), known=None):
     """entries: list of dicts {'name': fn, 'params': {...}} in dependency order.
     Returns (coq text, {name: FnInfo}, {name: hash})"""
     src = open(pyfile).read()
     tree = ast.parse(src)
     fns = {n.name: n for n in tree.body if isinstance(n, ast.FunctionDef)}
-    known = {}
+    known = dict(known or {})   # FnInfo of functions translated elsewhere (header_imports must provide them)
     hashes = {}
     out = ['(* GENERATED by tools/py2coq.py from %s — do not edit; regenerated on every check run *)'
            % os.path.relpath(pyfile, '/repo'),
